@@ -119,12 +119,17 @@ class C06(core.Prop):
                           (x % (2 ** 40) if isinstance(x, int) and not isinstance(x, bool) and abs(x) > 2 ** 40 else
                            (1.0 if isinstance(x, float) and math.isinf(x) else x)) for x in c['cells']]
         cons = {c['name']: preferred(c02.gen_constraints(rng, c)) for c in fr['cols']}
+        clean = rng.random() < 0.08
+        if clean:
+            # a run in which every constraint holds (an output file left by an earlier run must not survive it)
+            cons = {c['name']: [{'kind': 'max_nulls', 'value': fr['nrows']}] for c in fr['cols']}
         e = rng.choice(c02.EPS)
         opts = {'per_constraint': rng.random() < 0.6, 'write_all': rng.random() < 0.4,
                 'output_fields': rng.choice([None, None, [], [fr['cols'][0]['name']]]),
                 'index': rng.random() < 0.3, 'in_place': rng.random() < 0.2, 'boolean_ints': rng.random() < 0.2}
         return {'frame': fr, 'constraints': cons, 'eps': [e.numerator, e.denominator],
-                'opts': opts, 'out': rng.choice([None, None, 'csv', 'parquet']), 'stale': rng.random() < 0.5,
+                'opts': opts, 'out': rng.choice(['csv', 'parquet']) if clean else rng.choice([None, None, 'csv', 'parquet']),
+                'stale': True if clean else rng.random() < 0.5,
                 'index_kind': rng.choice(['default', 'default', 'permuted', 'labels', 'offset'])}
 
     def _indexed(self, df, case):
